@@ -21,7 +21,8 @@ import (
 //   - the statement's rule finds exactly one expression and nothing else: the value is that
 //     expression's value (an error value if it fails; its text otherwise);
 //   - anything else: the value is a text, the one the statement's rule gives (before an unclosed
-//     `@(`: a text that starts with it).
+//     `@(`: a text that starts with it and goes on with the `@(` and what follows it, passed through
+//     as the statement's rule for template text says - see refText).
 
 // refValue is what the statement's rule says TemplateValue(t) is in world w.
 type refValue struct {
@@ -30,12 +31,14 @@ type refValue struct {
 	ident  bool
 	ok     bool   // the expression evaluates (single only)
 	text   string // the value's text (single && ok) / the template's text
-	exact  bool   // false: only a prefix of the text is specified (unclosed `@(`)
+	exact  bool   // false: the text has an `@(` that is never closed; text is the output before it
+	alts   []string // !exact: the complete texts the statement allows (see refText)
 }
 
 func refTemplateValue(w *world, t string) refValue {
 	tt := strings.TrimSpace(t)
-	want, exact, exprs := refTemplateIn(w, tt)
+	rt := refOf(w, tt)
+	want, exact, exprs := rt.want, rt.exact, rt.exprs
 	if exact && len(exprs) == 1 {
 		e := exprs[0]
 		if (e.ident && tt == "@"+e.expr) || (!e.ident && tt == "@("+e.expr+")") {
@@ -43,7 +46,7 @@ func refTemplateValue(w *world, t string) refValue {
 			return refValue{single: true, expr: e.expr, ident: e.ident, ok: ok, text: v, exact: true}
 		}
 	}
-	return refValue{text: want, exact: exact}
+	return refValue{text: want, exact: exact, alts: rt.alts}
 }
 
 // checkValue evaluates template text t through TemplateValue on the given Evaluator and compares.
@@ -80,13 +83,16 @@ func checkValue(ev *excellent.Evaluator, w *world, t string) (*failure, refValue
 	txt, isText := v.(*types.XText)
 	switch {
 	case types.IsXError(v):
-		return &failure{"error-value-for-text-template", fmt.Sprintf("TemplateValue(%q): by the statement's rule the template is more than one expression and its text is %q (whole text specified: %v), but the value is %s", t, ref.text, ref.exact, show())}, ref
+		return &failure{"error-value-for-text-template", fmt.Sprintf("TemplateValue(%q): by the statement's rule the template is more than one expression and its text is %q (every `@(` closed: %v), but the value is %s", t, ref.text, ref.exact, show())}, ref
 	case !isText:
-		return &failure{"typed-value-for-text-template", fmt.Sprintf("TemplateValue(%q): by the statement's rule the template is more than one expression and its text is %q (whole text specified: %v), but the value is %s", t, ref.text, ref.exact, show())}, ref
+		return &failure{"typed-value-for-text-template", fmt.Sprintf("TemplateValue(%q): by the statement's rule the template is more than one expression and its text is %q (every `@(` closed: %v), but the value is %s", t, ref.text, ref.exact, show())}, ref
 	case ref.exact && txt.Native() != ref.text:
 		return &failure{"wrong-text", fmt.Sprintf("TemplateValue(%q) is the text %q, the statement's rule gives %q", t, txt.Native(), ref.text)}, ref
 	case !ref.exact && !strings.HasPrefix(txt.Native(), ref.text):
 		return &failure{"wrong-text-before-unclosed-expression", fmt.Sprintf("TemplateValue(%q) is the text %q, the statement's rule gives %q before the unclosed `@(`", t, txt.Native(), ref.text)}, ref
+	case !ref.exact && !has(ref.alts, txt.Native()):
+		kind, nearest := deviation(txt.Native(), ref.alts)
+		return &failure{"unclosed-expression-text:" + kind, fmt.Sprintf("TemplateValue(%q): the text has an `@(` that is never closed, which is text and passes through: the value is the text %q, the statement's rule gives %q (accepted readings of the text after the `@(`: %s)", t, txt.Native(), nearest, quoteAll(ref.alts))}, ref
 	}
 	return nil, ref
 }
